@@ -709,8 +709,15 @@ func (api *API) ClusterMessage(ctx context.Context, reqBody io.Reader) error {
 		return errors.Wrap(err, "reading body")
 	}
 
+	if len(body) == 0 {
+		return NewBadRequestError(errors.New("empty cluster message"))
+	}
+
 	typ := body[0]
-	msg := getMessage(typ)
+	msg, err := getMessage(typ)
+	if err != nil {
+		return NewBadRequestError(err)
+	}
 	err = api.server.serializer.Unmarshal(body[1:], msg)
 	if err != nil {
 		return errors.Wrap(err, "deserializing cluster message")
